@@ -108,7 +108,10 @@ Clause ==
          ELSE "ok"
     [] Ev.ev = "rskip" ->               \* render_file raised SQLFluffSkipFile in the main process
          IF ~Tr.hook THEN "ok"          \* serial / unhooked runs: informative; the end-of-trace clauses decide
-         ELSE IF QueuedOf(Ev.f) = {} THEN "SkippedBeforeSubmit"      \* pool run rendering in main: Runner!SkipAtSubmit
+         ELSE IF Ev.w # 0                \* written by a pool *thread* that holds the task: the skip will be shipped
+         THEN (IF ~(Ev.w \in 1..nw) \/ running[Ev.w].t = 0 \/ tasks[running[Ev.w].t] # Ev.f
+               THEN "RenderSkipByHoldingWorker" ELSE "ok")          \* as a DelayedException (consume/skip follow)
+         ELSE IF QueuedOf(Ev.f) = {} THEN "SkippedBeforeSubmit"      \* by the feeder, rendering in main: Runner!SkipAtSubmit
          ELSE IF ~O(queue[Least(QueuedOf(Ev.f))]).skip THEN "SkippedIffSerialSkipped"
          ELSE "ok"
     [] OTHER -> "UnknownEvent"
@@ -124,7 +127,7 @@ Apply1 ==
     [] Ev.ev = "add"     -> /\ Add(IF Tr.hook THEN held ELSE PickDone(Ev.f), Ev.rec)
                             /\ held' = NoTask /\ UNCHANGED nworkers
     [] Ev.ev = "persist" -> PersistTo(Ev.post) /\ UNCHANGED <<held, nworkers>>
-    [] Ev.ev = "rskip"   -> /\ IF Tr.hook THEN SkipAtSubmit(Least(QueuedOf(Ev.f))) ELSE UNCHANGED vars
+    [] Ev.ev = "rskip"   -> /\ IF Tr.hook /\ Ev.w = 0 THEN SkipAtSubmit(Least(QueuedOf(Ev.f))) ELSE UNCHANGED vars
                             /\ UNCHANGED <<held, nworkers>>
 
 (* End of trace: the contract's outcome clauses (Runner!RecordsAgree etc. with outcome = serial run), on the
